@@ -580,7 +580,7 @@ def conf_pat(seed):
 PROFILES["conf_pat"] = conf_pat
 
 
-def conf_reload(seed, mon=False):
+def conf_reload(seed, mon=False, arb=None):
     """conformance profile for reloadconfig: the arbiter is booted from a real ini file; the file is edited (sections
     added, removed, numprocesses changed, other keys changed) and reloaded, with worker deaths, ticks and other
     requests in between and while a reload is in flight"""
@@ -604,6 +604,8 @@ def conf_reload(seed, mon=False):
           "obeys": [True], "instant_death": rng.random() < 0.15, "script": [{"op": "boot"}, {"op": "tick", "n": rng.randint(0, 6)}]}
     s = sc["script"]
     undo = []
+    arb = (not mon) if arb is None else arb       # edits of the [circus] section: in the strict profile only
+    fcd = [None]
     for _ in range(rng.randint(2, 6)):
         r = rng.random()
         have = [w["name"] for w in ws]
@@ -630,6 +632,10 @@ def conf_reload(seed, mon=False):
                             "priority": rng.choice([0, 1, 2]), "stop_signal": rng.choice([scenario.SIGTERM, scenario.SIGINT,
                                                                                          scenario.SIGQUIT])}[k]
             q = {"op": "reloadcfg", "watchers": [dict(w) for w in ws], "waiting": rng.random() < 0.5}
+            if arb and rng.random() < 0.35:       # from now on the file's [circus] section differs (check_delay)
+                fcd[0] = sc["check_delay"] + 1.0
+            if fcd[0] is not None:
+                q["file_check_delay"] = fcd[0]
             for w, v in undo:          # (the next version of the file takes the refused value back)
                 w["np"] = v
             del undo[:]
@@ -702,3 +708,13 @@ def reloadmon(seed):
 
 
 PROFILES["reloadmon"] = reloadmon
+
+
+def reloadarb(seed):
+    """reloads of a file whose [circus] section has changed ("restart everything"), with requests afterwards: the
+    daemon must go on serving (C10)"""
+    sc = conf_reload(seed, mon=False, arb=True)
+    return sc
+
+
+PROFILES["reloadarb"] = reloadarb
